@@ -98,8 +98,16 @@ def check_repartition(spec):
         ensure(out.npartitions == len(d) - 1, f"npartitions {out.npartitions} for {len(d)} divisions", "divisions-differ", **sig)
         sig["force"] = bool(op.get("force"))
     elif kind == "partition_size":
+        size = op["size"]
+        if op.get("rel") is not None:
+            # relative to the memory of the LARGEST source partition: with uneven partitions some have to be split
+            # while others are kept whole or merged
+            with C.quiet():
+                mems = [int(src.partitions[i].compute(scheduler="sync").memory_usage(deep=True).sum()) for i in range(src.npartitions)]
+            size = max(1, int(max(mems) * op["rel"]))
+            sig["uneven"] = max(mems) > 2 * max(1, min(mems))
         with impl("repartition(partition_size)", **sig), C.quiet():
-            out = src.repartition(partition_size=op["size"])
+            out = src.repartition(partition_size=size)
             got = F.compute(out)
     elif kind == "freq":
         if not (src.known_divisions and isinstance(src.divisions[0], pd.Timestamp)):
@@ -169,7 +177,7 @@ def classes(spec):
 
 @st.composite
 def repartition_case(draw):
-    kind = draw(st.sampled_from(["npartitions", "npartitions", "divisions", "divisions", "divisions", "partition_size", "freq"]))
+    kind = draw(st.sampled_from(["npartitions", "npartitions", "divisions", "divisions", "divisions", "partition_size", "partition_size", "freq"]))
     index_kinds = ("datetime", "datetime_unique") if kind == "freq" else C.SORTED_INDEX
     spec = draw(C.sorted_frame_spec(min_rows=1, max_rows=30, index_kinds=index_kinds, p_bydivs=0.6 if kind in ("divisions", "freq") else 0.4))
     p = spec["partition"]
@@ -191,7 +199,7 @@ def repartition_case(draw):
             "force": force,
         }
     elif kind == "partition_size":
-        op = {"op": kind, "size": draw(st.sampled_from([300, 1000, 4000, "1MB"]))}
+        op = {"op": kind, "size": draw(st.sampled_from([300, 1000, 4000, "1MB"])), "rel": draw(st.sampled_from([None, 0.26, 0.4, 0.51, 0.9, 1.0, 1.7, 3.0]))}
     else:
         op = {"op": kind, "freq": draw(st.sampled_from(["2h", "6h", "1D", "45min"]))}
     spec["op"] = op
